@@ -1259,6 +1259,24 @@ enum NodeType {
 	Overflow(OverflowPage),
 }
 
+/// Result of [`BPlusTree::verif_census`].
+#[cfg(feature = "verif")]
+#[derive(Debug, Default, Clone)]
+pub struct VerifCensus {
+	pub total_pages: u64,
+	pub header_free_count: u64,
+	pub internal_pages: u64,
+	pub leaf_pages: u64,
+	pub overflow_pages: u64,
+	pub trunk_pages: u64,
+	pub free_listed: u64,
+	pub keys: u64,
+	pub leaf_chain_matches_tree: bool,
+	pub pages_seen_twice: Vec<u64>,
+	pub unaccounted_pages: u64,
+	pub out_of_file: u64,
+}
+
 #[derive(Clone, Copy, PartialEq)]
 #[allow(dead_code)]
 pub enum Durability {
@@ -2688,6 +2706,87 @@ impl<F: VfsFile> BPlusTree<F> {
 
 		self.maybe_sync()?;
 		Ok(())
+	}
+
+	/// Verification hook (H7): page census. Walks the tree from the root, every
+	/// overflow chain and the free list, and reports how each page of the file is
+	/// accounted for.
+	#[cfg(feature = "verif")]
+	pub fn verif_census(&mut self) -> Result<VerifCensus> {
+		use std::collections::HashMap;
+		let mut seen: HashMap<u64, u32> = HashMap::new();
+		let mut c = VerifCensus {
+			total_pages: self.header.total_pages,
+			header_free_count: self.header.free_page_count as u64,
+			..Default::default()
+		};
+		// tree pages + overflow chains
+		let mut stack = vec![self.header.root_offset];
+		let mut chains: Vec<u64> = Vec::new();
+		let mut leaves_in_tree_order: Vec<u64> = Vec::new();
+		while let Some(off) = stack.pop() {
+			*seen.entry(off).or_insert(0) += 1;
+			match self.read_node(off)?.as_ref() {
+				NodeType::Internal(n) => {
+					c.internal_pages += 1;
+					chains.extend(n.key_overflows.iter().copied().filter(|o| *o != 0));
+					// push in reverse so that leaves come out left to right
+					for ch in n.children.iter().rev() {
+						stack.push(*ch);
+					}
+				}
+				NodeType::Leaf(n) => {
+					c.leaf_pages += 1;
+					c.keys += n.keys.len() as u64;
+					chains.extend(n.cell_overflows.iter().copied().filter(|o| *o != 0));
+					leaves_in_tree_order.push(off);
+				}
+				NodeType::Overflow(_) => return Err(BPlusTreeError::UnexpectedOverflowPage(off)),
+			}
+		}
+		for first in chains {
+			let mut cur = first;
+			while cur != 0 {
+				*seen.entry(cur).or_insert(0) += 1;
+				c.overflow_pages += 1;
+				match self.read_node(cur)?.as_ref() {
+					NodeType::Overflow(o) => cur = o.next_overflow,
+					_ => return Err(BPlusTreeError::InvalidOverflowChain(cur)),
+				}
+			}
+		}
+		// leaf chain as linked through next_leaf, from the header's first leaf
+		let mut chain: Vec<u64> = Vec::new();
+		let mut cur = self.header.first_leaf_offset;
+		while cur != 0 && chain.len() <= leaves_in_tree_order.len() {
+			chain.push(cur);
+			cur = match self.read_node(cur)?.as_ref() {
+				NodeType::Leaf(l) => l.next_leaf,
+				_ => 0,
+			};
+		}
+		c.leaf_chain_matches_tree = chain == leaves_in_tree_order;
+		// free list
+		let mut trunk = self.header.trunk_page_head;
+		while trunk != 0 {
+			*seen.entry(trunk).or_insert(0) += 1;
+			c.trunk_pages += 1;
+			let t = self.read_trunk_page(trunk)?;
+			for p in &t.free_pages {
+				*seen.entry(*p as u64 * PAGE_SIZE as u64).or_insert(0) += 1;
+				c.free_listed += 1;
+			}
+			trunk = t.next_trunk;
+			if c.trunk_pages > c.total_pages {
+				break; // cycle
+			}
+		}
+		c.pages_seen_twice = seen.iter().filter(|(_, n)| **n > 1).map(|(o, _)| *o).collect();
+		c.pages_seen_twice.sort_unstable();
+		let accounted = 1 + seen.len() as u64; // + header page
+		c.unaccounted_pages = c.total_pages.saturating_sub(accounted);
+		c.out_of_file = seen.keys().filter(|o| **o >= c.total_pages * PAGE_SIZE as u64 || **o < PAGE_SIZE as u64).count() as u64;
+		Ok(c)
 	}
 
 	pub fn range<'a, R: RangeBounds<&'a [u8]>>(
